@@ -20,7 +20,7 @@ From Coq Require Import List Arith Bool String QArith.
 From stdpp Require Import gmap.
 From RC Require Import Base.Res Base.Num Model.Search Model.SearchSpec Model.SearchRun
   Proofs.SearchTree Proofs.SearchInv Proofs.SearchBacktrack Proofs.SearchRoute Proofs.SearchCheck Proofs.SearchQ
-  Proofs.SearchRunQ.
+  Proofs.SearchRunQ Proofs.SearchKsp.
 Import ListNotations.
 Import Search SearchSpec.
 
@@ -152,6 +152,19 @@ Proof. exact check_tree_spec. Qed.
 Theorem c01_check_etree_spec : forall g d e1 l, check_etree g d e1 l = true <-> etree_ok g d e1 l.
 Proof. exact check_etree_spec. Qed.
 
+Theorem c01_check_kroute_spec : forall g d s t r, check_kroute g d s t r = true <-> kroute_ok g d s t r.
+Proof. exact check_kroute_spec. Qed.
+
+(* k-shortest paths (Yen): a candidate assembled from a non-empty proper-or-not prefix of an accepted route
+   (a walk from the origin) and a spur route from the far end of the prefix's last edge to the target is a
+   contiguous walk from the origin to the target; with c01_vertex_route_walk for the spur searches this gives, by
+   induction over the accepted list, the chain clause for every route yens_algorithm.rs returns *)
+Theorem c01_yen_candidate_walk : forall g s t prev n e ed spur,
+    walk g Forward s prev t -> firstn n prev <> [] -> List.last (firstn n prev) e = e ->
+    get_edge g e = Some ed -> walk g Forward (edst ed) spur t ->
+    walk g Forward s (firstn n prev ++ spur) t.
+Proof. exact yen_candidate_walk. Qed.
+
 (* the hypotheses hold for exact rationals and the table-driven configuration of Model/SearchRun.v
    (any world: any graph, cost table, heuristic table, turn costs, frontier tables) *)
 Theorem c01_Q_hypotheses : forall w : SR.world QN,
@@ -237,6 +250,8 @@ Print Assumptions c01_check_route_spec.
 Print Assumptions c01_check_eroute_spec.
 Print Assumptions c01_check_tree_spec.
 Print Assumptions c01_check_etree_spec.
+Print Assumptions c01_check_kroute_spec.
+Print Assumptions c01_yen_candidate_walk.
 Print Assumptions c01_Q_hypotheses.
 Print Assumptions c01_model_outcome_accepted.
 Print Assumptions c01_nonvacuous.
